@@ -200,6 +200,50 @@ def _modifier_chunk(items):
     return out
 
 
+def case_variant_names(run):
+    """Distinct names that differ only in letter case (id, ID, Id) are distinct columns: each reference form binds to its own position
+    (the binding rule of Names.tla: a name denotes the column whose header cell equals it), through lists, a CSV header line and pandas."""
+    mods = impl.load()
+    rbql, eng, rcsv, cu = mods
+    from rbql import rbql_pandas
+    import pandas as pd
+    header = ['id', 'ID', 'Id']
+    data = [['r1a', 'r1b', 'r1c'], ['r2a', 'r2b', 'r2c']]
+    d = tempfile.mkdtemp(prefix='rbqlverif_c09v_')
+    try:
+        inp = os.path.join(d, 'in.csv')
+        open(inp, 'w').write(','.join(header) + '\n' + ''.join(','.join(r) + '\n' for r in data))
+        for pos, name in enumerate(header):
+            want = [[r[pos]] for r in data]
+            for ref in ('a.' + name, 'a["%s"]' % name, "a['%s']" % name):
+                q = 'select ' + ref
+                results = {}
+                try:
+                    out = []
+                    rbql.query_table(q, [list(r) for r in data], out, [], None, list(header))
+                    results['list'] = out
+                except Exception as e:  # noqa
+                    results['list'] = 'raised ' + str(e)[:80]
+                try:
+                    outp = os.path.join(d, 'o.csv')
+                    rcsv.query_csv(q, inp, ',', 'quoted', outp, ',', 'quoted', 'utf-8', [], True)
+                    results['csv'] = [l.split(',') for l in open(outp).read().split('\n') if l][1:]
+                except Exception as e:  # noqa
+                    results['csv'] = 'raised ' + str(e)[:80]
+                try:
+                    results['pandas'] = rbql_pandas.query_dataframe(q, pd.DataFrame(data, columns=header)).values.tolist()
+                except Exception as e:  # noqa
+                    results['pandas'] = 'raised ' + str(e)[:80]
+                for backend, got in results.items():
+                    run.traces += 1
+                    run.count(['casevariant', name, ref, backend], nontrivial=True)
+                    if got != want:
+                        run.violation({'impl': 'py', 'backend': backend, 'what': 'names differing only in letter case: reference bound to another column', 'ref': ref, 'got': got, 'want': want},
+                                      {'kind': 'case_variant', 'ref': ref})
+    finally:
+        shutil.rmtree(d, ignore_errors=True)
+
+
 def check(run):
     quick = run.tier == 'quick'
     maxname = 2 if quick else 3
@@ -235,6 +279,7 @@ def check(run):
         run.count(['modifier', case['flag'], case['modifier'], case['pos'], case['quote']], nontrivial=True, n=nruns)
         for sig in sigs:
             run.violation(sig, {'kind': 'modifier_case', 'case': case, 'k': k})
+    case_variant_names(run)
     run.exhaustive = True
 
 
